@@ -48,6 +48,11 @@ pub open spec fn rrs_of(zrs: Seq<ZoneRecord>, owner: DomainName) -> Seq<Resource
 pub open spec fn has(m: Map<RecordType, Vec<ZoneRecord>>, t: RecordType) -> bool { m.contains_key(t) && m[t]@.len() > 0 }
 pub open spec fn cname_of(d: RecordTypeWithData) -> DomainName { d->CNAME_cname }
 
+// ANY: every record of every type at the node, and nothing else (order unspecified)
+pub open spec fn any_answer_ok(rrs: Seq<ResourceRecord>, m: Map<RecordType, Vec<ZoneRecord>>, qname: DomainName) -> bool {
+    &&& forall|t: RecordType, i: int| #![trigger m[t]@[i]] m.contains_key(t) && 0 <= i < m[t]@.len() ==> rrs.contains(to_rr_spec(m[t]@[i], qname))
+    &&& forall|j: int| 0 <= j < rrs.len() ==> exists|t: RecordType, i: int| m.contains_key(t) && 0 <= i < m[t]@.len() && #[trigger] rrs[j] == to_rr_spec(#[trigger] m[t]@[i], qname)
+}
 // "Every record returned is one the zone holds, with its configured TTL and data", owner as stated per case.
 // `delegable`: the node may act as a delegation point (any node except the zone apex).
 pub open spec fn terminal_ok(r: ZoneResult, m: Map<RecordType, Vec<ZoneRecord>>, qname: DomainName, qtype: QueryType, cut: DomainName, delegable: bool) -> bool {
@@ -60,9 +65,7 @@ pub open spec fn terminal_ok(r: ZoneResult, m: Map<RecordType, Vec<ZoneRecord>>,
     } else {
         match qtype {
             QueryType::Record(t) => r is Answer && r->rrs@ == (if m.contains_key(t) { rrs_of(m[t]@, qname) } else { Seq::<ResourceRecord>::empty() }),
-            QueryType::Wildcard => r is Answer
-                && (forall|t: RecordType, i: int| #![trigger m[t]@[i]] m.contains_key(t) && 0 <= i < m[t]@.len() ==> r->rrs@.contains(to_rr_spec(m[t]@[i], qname)))
-                && (forall|j: int| 0 <= j < r->rrs@.len() ==> exists|t: RecordType, i: int| m.contains_key(t) && 0 <= i < m[t]@.len() && #[trigger] r->rrs@[j] == to_rr_spec(#[trigger] m[t]@[i], qname)),
+            QueryType::Wildcard => r is Answer && any_answer_ok(r->rrs@, m, qname),
             _ => r is Answer && r->rrs@.len() == 0,
         }
     }
